@@ -28,6 +28,12 @@ def sign (x : K) : Int := if 0 < x then 1 else if x < 0 then -1 else 0
 /-- `np.sign(decision_function)` -/
 def predictQuad (dab dcd : K) : Int := sign (decisionQuad dab dcd)
 
+/-- `2 * (condition) - 1` on a boolean array entry -/
+def pmOne (b : Bool) : K := if b then 1 else -1
+
+/-- `np.sign` -/
+def signK (x : K) : K := if 0 < x then 1 else if x < 0 then -1 else 0
+
 /-- `predict(...).mean() / 2 + 0.5` for predictions in {-1,+1} -/
 def scoreFrac (preds : List Int) : K :=
   let pos := (preds.filter (· = 1)).length
